@@ -1,9 +1,20 @@
 #!/bin/bash
-# usage: tools_run_seed.sh <seeded/ID dir> <tier> <Cxx> [Cxx...] : apply the seeded change to /repo, run the checks, undo it
+# usage: tools_run_seed.sh <seeded/ID dir> <tier> <Cxx> [Cxx...]
+# default: apply the seeded change to /repo (git -C /repo apply), run the checks, undo it (git -C /repo checkout -- .)
+# VERIF_SCRATCH=1: the same on a scratch worktree of /repo HEAD (checks run with VERIF_REPO=<worktree>), for use while a
+# background run is reading /repo
 S=$(realpath $1); T=$2; shift 2
-git -C /repo diff --quiet || { echo "/repo dirty"; exit 9; }
-git -C /repo apply $S/patch.diff || { echo "patch does not apply"; exit 9; }
-for p in "$@"; do echo "--- $p on $(basename $S)"; /verif/check $p $T 2>&1 | grep -E "^(VIOLATION|KNOWN|INCONCLUSIVE|C[0-9]+ )" | cut -c1-300; echo "exit=${PIPESTATUS[0]}"; done
-git -C /repo checkout -- . ; git -C /repo status --short | head -3
+if [ -n "$VERIF_SCRATCH" ]; then
+  W=$(mktemp -d /tmp/seedrepo.XXXX); rmdir $W
+  git -C /repo worktree add -q --detach $W HEAD || exit 9
+  git -C $W apply $S/patch.diff || { echo "patch does not apply"; git -C /repo worktree remove --force $W; exit 9; }
+  for p in "$@"; do echo "--- $p on $(basename $S)"; VERIF_REPO=$W /verif/check $p $T 2>&1 | grep -E "^(VIOLATION|KNOWN|INCONCLUSIVE|C[0-9]+ )" | cut -c1-300; echo "exit=${PIPESTATUS[0]}"; done
+  git -C /repo worktree remove --force $W
+else
+  git -C /repo diff --quiet || { echo "/repo dirty"; exit 9; }
+  git -C /repo apply $S/patch.diff || { echo "patch does not apply"; exit 9; }
+  for p in "$@"; do echo "--- $p on $(basename $S)"; /verif/check $p $T 2>&1 | grep -E "^(VIOLATION|KNOWN|INCONCLUSIVE|C[0-9]+ )" | cut -c1-300; echo "exit=${PIPESTATUS[0]}"; done
+  git -C /repo checkout -- . ; git -C /repo status --short | head -3
+fi
 # evidence files were rewritten by runs on a mutated tree: restore the committed ones
 git -C /verif checkout -- evidence 2>/dev/null; rm -f /verif/replays/*.json
